@@ -504,6 +504,8 @@ def _rule_tspan(sm, roles, bodies):
                         hi_o = single_origin(trace_operand(b, hi, through_calls=set()))
                         good = (lo_o is not None and lo_o.kind == 'binop' and lo_o.data[2]['op'].startswith('Add') and op_const_int(lo_o.data[2]['b']) == 1 and _equiv(sm, b, lo_o.data[2]['a'], s0)
                                 and hi_o is not None and hi_o.kind == 'binop' and hi_o.data[2]['op'].startswith('Sub') and op_const_int(hi_o.data[2]['b']) == 1 and _equiv(sm, b, hi_o.data[2]['a'], s1))
+                        if not good and lo_o is not None and lo_o.kind == 'binop' and lo_o.data[2]['op'].startswith('Add') and _const_one(b, lo_o.data[2]['b']) and _equiv(sm, b, lo_o.data[2]['a'], s0):
+                            good = _hi_is_last_item(sm, b, hi, s1, bb)
                         if not good:
                             problems.append('the String token text is not input[span.start + 1 .. span.end - 1] (the characters between the quotes, verbatim)')
                     else:
@@ -541,6 +543,61 @@ def _rule_tspan(sm, roles, bodies):
                 obs.append(ok('TSPAN', key, '%s token: span bounds are char boundaries; text and span describe the same range%s' % (variant, ' (shrunk by the quotes)' if variant == 'String' else ''), b.where(bb)))
     obs.append(floor('TSPAN', 'token-construction-sites', n, 8, 'operator, delimiter, number, comma, bool, string, reference, function, semicolon'))
     return obs
+
+
+def _const_one(b, op):
+    if op_const_int(op) == 1:
+        return True
+    o = single_origin(trace_operand(b, op, through_calls=set()))
+    return o is not None and o.kind == 'const' and not o.proj and isinstance(o.data, dict) and o.data.get('int') == 1
+
+
+def _hi_is_last_item(sm, b, hi, s1, agg_bb):
+    """the upper bound of the text is the *index of an item the scanner drew* whose character was compared equal to
+    something on an edge that dominates the token, and the span end is the position read afterwards with no advance in
+    between: the text stops right before that item (the closing quote, by STRTERM), the span right after it"""
+    origins = [o for o in trace_operand(b, hi, through_calls=set())]
+    origins = [o for o in origins if not (o.kind == 'agg' and o.data[2].get('variant') == 'None')]
+    if len(origins) != 1:
+        return False
+    ho = origins[0]
+    if ho.kind != 'callres' or ho.proj[-1:] != (('f', 0),):
+        return False
+    ok_b, _ = sm.origin_b(b, ho)
+    if not ok_b:
+        return False
+    char_key = (ho.kind, ho.key()[1], ho.proj[:-1] + (('f', 1),))
+    te = None
+    for sb in sorted(b.live_blocks):
+        t = b.blocks[sb]['term']
+        if t['k'] != 'switch':
+            continue
+        do = single_origin(trace_operand(b, t['discr'], through_calls=set()))
+        if do is None or do.kind != 'binop' or do.data[2]['op'] != 'Eq':
+            continue
+        sides = [single_origin(trace_operand(b, do.data[2][x], through_calls=set())) for x in ('a', 'b')]
+        if not any(x is not None and (x.kind, x.key()[1], x.proj) == char_key for x in sides):
+            continue
+        for v, tb in switch_edges(b, sb):
+            if v != 0 and edge_dominates(b, sb, tb, agg_bb):
+                te = tb
+    if te is None:
+        return False
+    eo = single_origin(trace_operand(b, s1, through_calls=set()))
+    if eo is None or eo.kind != 'callres' or eo.proj:
+        return False
+    r, _ = sm.is_b(b, s1)
+    if not r:
+        return False
+    import r_term
+    tm = sm.__dict__.get('_tm')
+    if tm is None:
+        tm = sm._tm = r_term.TermModel(sm.prog, sm.roles)
+    region = b.reachable_from(te) & ({agg_bb} | {x for x in b.live_blocks if agg_bb in b.reachable_after(x)})
+    for c in b.live_calls:
+        if c.bb in region and (c.ruid in tm.char_adv or (c.rdef or '').endswith('as std::iter::Iterator>::next') and 'CharIndices' in (c.rdef or '')):
+            return False
+    return True
 
 
 def _param_text_ok(sm, roles, b, pidx, s0, s1, agg_bb):
